@@ -218,6 +218,14 @@ def run(ctx):
         cases.append(ni); fam["indexed"] = len(cases) - 1
         ni = copy.deepcopy(ni); ni["init"] = "noindex"
         cases.append(ni); fam["noindex"] = len(cases) - 1
+        # a tube without thermal results (its temperature never changes) against the same tube with its constant temperature stored
+        iso = copy.deepcopy(base)
+        iso["prof"] = [(0.0, 0.0, 0.0), (0.0, 0.0, 0.0)]
+        isod = rng.choice([1, 2, 3])
+        ib = make_case(rng, isod, 5, 8, 2, iso)
+        ia = copy.deepcopy(ib); ia["temps"] = None
+        cases.append(ia); fam["isoA"] = len(cases) - 1
+        cases.append(ib); fam["isoB"] = len(cases) - 1
         fams.append(fam)
     res = run_impl_parallel("struct_run", [to_impl(c, i) for i, c in enumerate(cases)], workers=12, timeout=1800)
     for i, (c, r) in enumerate(zip(cases, res)):
@@ -261,7 +269,7 @@ def run(ctx):
         findings.append((cases[fe_owner[kk][0]], fe_owner[kk][1]))
     ctx.oblige("corr/axisymmetric-finite-element-certificate (%d terms)" % len(fe_terms), "corr", not fe_fail, "%d terms fail" % len(fe_fail))
     for fam in fams:
-        idx = fam["1D"] + fam["2D"] + [fam["3D"], fam["2Dfor3D"], fam["1Dmid"], fam["indexed"], fam["noindex"], fam["idle"]]
+        idx = fam["1D"] + fam["2D"] + [fam["3D"], fam["2Dfor3D"], fam["1Dmid"], fam["indexed"], fam["noindex"], fam["idle"], fam["isoA"], fam["isoB"]]
         if any(res[i].get("outcome") != "ok" for i in idx):
             continue
         E = cases[idx[0]]["material"]["E"]
@@ -298,6 +306,15 @@ def run(ctx):
         if res[a]["force"][-1] != res[b]["force"][-1] or res[a]["quad"]["stress_zz"][-1] != res[b]["quad"]["stress_zz"][-1]:
             findings.append((cases[b], "a tube starting at %g K gives axial force %.8g when the first state is created without a time index, "
                                        "%.8g otherwise" % (cases[b]["T0"], uv(res[b]["force"][-1]), uv(res[a]["force"][-1]))))
+        # no thermal results = a temperature that never changes: pressure and extension only
+        a, b = fam["isoA"], fam["isoB"]
+        sa, sb = [arr(res[a]["quad"]["stress" + n])[-1] for n in SUFF], [arr(res[b]["quad"]["stress" + n])[-1] for n in SUFF]
+        gap = max(float(np.max(np.abs(x - y))) for x, y in zip(sa, sb))
+        smax = max(float(np.max(np.abs(y))) for y in sb) + 1e-9
+        Fa, Fb = uv(res[a]["force"][-1]), uv(res[b]["force"][-1])
+        if gap > 1e-8 * smax or abs(Fa - Fb) > 1e-8 * (abs(Fb) + smax * area(cases[b])):
+            findings.append((cases[a], "a tube at %g K without thermal results is not solved as the isothermal problem: stresses differ by %g "
+                                       "(largest %g), axial force %.8g against %.8g" % (cases[a]["T0"], gap, smax, Fa, Fb)))
         # 2D and 3D of the same section agree to solver accuracy
         a, b = fam["2Dfor3D"], fam["3D"]
         fe2, _, scale, _ = stresses(cases[a], res[a])
